@@ -76,6 +76,8 @@ class Scheduler:
         self.local = threading.local()
         self._groups = {}
         self._monitoring = False
+        self.current_group = None
+        self._idle_pumps = 0
 
     # ------------------------------------------------------------- registry
     def register(self, func, callback, group, n_jobs):
@@ -123,6 +125,34 @@ class Scheduler:
             if pick.state == "done" and pick.callback is not None:
                 cb, pick.callback = pick.callback, None
                 cb(pick)  # drives joblib's pre_dispatch window (main thread)
+
+    def pump_one(self):
+        """One scheduling decision for the Parallel call the main thread is waiting in
+        (called instead of joblib's polling sleep): the completion callback of a task that
+        finishes is invoked here, so results are registered in *completion* order, exactly
+        as the threading backend does through its callback thread."""
+        if getattr(self.local, "task", None) is not None:
+            return
+        group = self.current_group
+        live = self._inflight(group) if group in self._groups else []
+        if not live:
+            self._idle_pumps += 1
+            if self._idle_pumps > 2000:
+                raise HarnessStall("joblib keeps polling but no simulated task is runnable")
+            return
+        self._idle_pumps = 0
+        if self.mode == "fifo":
+            pick = live[0]
+        else:
+            pick = live[self.rng.randrange(len(live))]
+        self.n_decisions += 1
+        if pick is not live[0]:
+            self.n_ooo += 1
+        self._note("run", pick.id)
+        self._step(pick)
+        if pick.state == "done" and pick.callback is not None:
+            cb, pick.callback = pick.callback, None
+            cb(pick)
 
     def _step(self, task):
         if self.mode != "interleave":
@@ -227,7 +257,10 @@ class SimFuture:
 
 
 class SimBackend(ParallelBackendBase):
-    supports_retrieve_callback = False
+    # as joblib's own threading backend: results are registered by the completion callback
+    # (here invoked by the simulated scheduler on the main thread), which is what makes
+    # return_as="generator_unordered" and completion-order effects reproducible
+    supports_retrieve_callback = True
     supports_sharedmem = True
     uses_threads = True
     supports_timeout = False
@@ -256,6 +289,7 @@ class SimBackend(ParallelBackendBase):
             raise RuntimeError("sim backend used outside a scenario")
         sched.n_parallel_calls += 1
         self._group = ("call", sched.n_parallel_calls)
+        sched.current_group = self._group
         return self._n_jobs
 
     def submit(self, func, callback=None):
@@ -265,6 +299,12 @@ class SimBackend(ParallelBackendBase):
         if callback is not None:
             task.callback = lambda t: callback(fut)
         return fut
+
+    def retrieve_result_callback(self, out):
+        t = out.task
+        if t.exc is not None:
+            raise t.exc
+        return t.result
 
     def abort_everything(self, ensure_ready=True):
         if CURRENT is not None and self._group is not None:
@@ -316,6 +356,24 @@ def monitoring_off():
     sys.monitoring.set_events(_TOOL, 0)
 
 
+class _JoblibTime:
+    """Stands in for the `time` module inside joblib.parallel: its polling sleep becomes one
+    step of the simulated scheduler; everything else is the real module."""
+
+    def __init__(self, real):
+        self._real = real
+
+    def sleep(self, seconds):
+        s = CURRENT
+        if s is not None and threading.current_thread() is threading.main_thread():
+            s.pump_one()
+        else:
+            self._real.sleep(seconds)
+
+    def __getattr__(self, name):
+        return getattr(self._real, name)
+
+
 class scenario_schedule:
     """Context manager: route every Parallel(n_jobs>1) in the block through
     the simulator."""
@@ -329,6 +387,10 @@ class scenario_schedule:
         CURRENT = self.sched
         self._cfg = parallel_config(backend="sim")
         self._cfg.__enter__()
+        import joblib.parallel as jp
+        self._jp_time = jp.time
+        if not isinstance(jp.time, _JoblibTime):
+            jp.time = _JoblibTime(jp.time)
         if self.sched.mode == "interleave":
             if not _installed:
                 from simkit import boot
@@ -341,5 +403,7 @@ class scenario_schedule:
         if self.sched.mode == "interleave":
             monitoring_off()
         self._cfg.__exit__(*exc)
+        import joblib.parallel as jp
+        jp.time = self._jp_time
         CURRENT = self._prev
         return False
